@@ -13,7 +13,7 @@ ENGINE = {'name': 'udp',
  'shard': 12,
  'serves': ['C09'],
  'rule': 'scenarios: a corpus (handler that never reads then returns while the loop is blocked in its send; 40-datagram burst to a handler that '
-         'returns at once; idle expiry followed by a late Close; read-once handlers followed by later datagrams; four interleaved clients with '
+         'returns at once; idle expiry followed by a late Close; idle expiry at the moment closeCh is full (loop blocked on a full readCh, ten associations finishing) followed by a datagram before the old handler returns; read-once handlers followed by later datagrams; four interleaved clients with '
          'jumbo datagrams read through small buffers, scripted and over real loopback sockets; backpressure count) plus random scenarios: 1-4 '
          'client addresses from one of six address sets (differing only in port / IP / IPv6 zone / family / non-UDP type), 2-80 datagrams of 16..9000 bytes in a random interleaving, per-client handler kinds echo / read n '
          'and return / return immediately / stall until released / idle out, optional waits for an association to end; every third random '
